@@ -44,5 +44,6 @@ theorem shape_fn_ID : Generated.Shapes.mg_fn_ID = Bridge.Expected.mg_fn_ID := rf
 theorem shape_fn_Run : Generated.Shapes.mg_fn_Run = Bridge.Expected.mg_fn_Run := rfl
 theorem shape_Fatalf : Generated.Shapes.mg_Fatalf = Bridge.Expected.mg_Fatalf := rfl
 theorem shape_fatalErr_ExitStatus : Generated.Shapes.mg_fatalErr_ExitStatus = Bridge.Expected.mg_fatalErr_ExitStatus := rfl
+theorem shape_fatalErr_Error : Generated.Shapes.mg_fatalErr_Error = Bridge.Expected.mg_fatalErr_Error := rfl
 theorem shape_Verbose : Generated.Shapes.mg_Verbose = Bridge.Expected.mg_Verbose := rfl
 end MageModel.Bridge.Deps
